@@ -208,7 +208,7 @@ Section Roundtrip.
        12 + 4 * nblocks BLOCK (len blocks) <= LIMIT /\ 12 + 4 * nblocks BLOCK (len blocks) < 2 ^ 32 /\
        len blocks < 2 ^ 63) ->
     (wc_encrypt cfg = true ->
-       (forall i c, len (tagf k n i c) = TAG) /\ nfull CHUNK (len (mid_of cfg blocks)) + 2 < 2 ^ 32) ->
+       (forall i c, len (tagf k n i c) = TAG) /\ (nfull CHUNK (len (mid_of cfg blocks)) + 2 < 2 ^ 32 /\ CHUNK + TAG <= 2 ^ 31)) ->
     exists R, Refines (StackS a (wc_encrypt cfg) (wc_compress cfg) k n) blocks R /\
       exists s, open_stack a (wc_encrypt cfg) (wc_compress cfg) k n (len hdr) = Ok s /\ R s 0.
   Proof.
@@ -226,10 +226,10 @@ Section Roundtrip.
       exists (Rcomp0 CHUNK TAG BLOCK ks tagc comp hdr blocks (nblocks BLOCK (len blocks)) (Cursor a)
                 (fun s p => s = p /\ p <= len a)).
       split.
-      + exact (stack_refines CHUNK TAG BLOCK LIMIT HCHUNK HTAG HB HB32 ks tagc Htagc comp dec Hdec hdr blocks _
-                 Hnb (conj Hl1 Hl2) HL He Hlen (Cursor a) _ HC).
-      + destruct (stack_open CHUNK TAG BLOCK LIMIT HCHUNK HTAG HB HB32 ks tagc Htagc comp dec Hdec hdr blocks _
-                    Hnb Hcs (conj Hl1 Hl2) HL He Hlen (Cursor a) _ HC (len hdr))
+      + exact (stack_refines CHUNK TAG BLOCK LIMIT HCHUNK HTAG (proj2 He) HB HB32 ks tagc Htagc comp dec Hdec hdr blocks _
+                 Hnb (conj Hl1 Hl2) HL (proj1 He) Hlen (Cursor a) _ HC).
+      + destruct (stack_open CHUNK TAG BLOCK LIMIT HCHUNK HTAG (proj2 He) HB HB32 ks tagc Htagc comp dec Hdec hdr blocks _
+                    Hnb Hcs (conj Hl1 Hl2) HL (proj1 He) Hlen (Cursor a) _ HC (len hdr))
           as (r & c & Hro & Hco & HRc).
         { apply cursor_at. unfold a. rewrite len_app. lia. }
         exists c. split; [|exact HRc].
@@ -242,9 +242,10 @@ Section Roundtrip.
       pose proof (raw_reader_refines (Cursor a) hdr _ _ HC Hlen) as HRaw.
       destruct (raw_open_spec (Cursor a) hdr _ _ HC Hlen (len hdr)) as (r & Hro & HRr).
       { apply cursor_at. unfold a. rewrite len_app. lia. }
-      destruct (enc_open_spec CHUNK TAG HCHUNK HTAG ks tagc Htagc _ blocks _ HRaw He r 0 HRr) as (e1 & Heo & HRe).
+      destruct (ranges_of_sizes CHUNK TAG (len blocks) HCHUNK (proj2 He) (proj1 He)) as [Hu64 Hi64].
+      destruct (enc_open_spec CHUNK TAG HCHUNK HTAG ks tagc Htagc _ blocks _ HRaw (proj1 He) Hu64 Hi64 r 0 HRr) as (e1 & Heo & HRe).
       eexists. split.
-      + exact (enc_reader_refines CHUNK TAG HCHUNK HTAG ks tagc Htagc _ blocks _ HRaw He).
+      + exact (enc_reader_refines CHUNK TAG HCHUNK HTAG ks tagc Htagc _ blocks _ HRaw (proj1 He) Hu64 Hi64).
       + exists e1. split; [|exact HRe].
         unfold Archive.open_stack. rewrite Hro. cbn [lift bind].
         exact (f_equal (@lift _ _) Heo).
@@ -363,7 +364,7 @@ Section Roundtrip.
     (wc_encrypt cfg = true ->
        len (wc_key cfg) = 32 /\ len (wc_nonce cfg) = 8 /\
        (forall i c, len (tagf (wc_key cfg) (wc_nonce cfg) i c) = TAG) /\
-       nfull CHUNK (len (mid_of cfg blocks)) + 2 < 2 ^ 32 /\
+       (nfull CHUNK (len (mid_of cfg blocks)) + 2 < 2 ^ 32 /\ CHUNK + TAG <= 2 ^ 31) /\
        dh s (pubk (wc_eph cfg)) = dh (wc_eph cfg) (pubk s) /\
        In (pubk s) (wc_recipients cfg) /\ In s privs) ->
     (* bincode limit on the header, u64 positions in the file *)
@@ -403,7 +404,7 @@ Section Roundtrip.
       rewrite lower_write_ok.
       + reflexivity.
       + intros Ec. destruct (Hc Ec) as (_ & _ & _ & H32 & _). exact H32.
-      + intros Ee. destruct (He Ee) as (_ & _ & _ & Hch & _). exact Hch.
+      + intros Ee. destruct (He Ee) as (_ & _ & _ & Hch & _). exact (proj1 Hch).
     - (* the configuration the reader loads *)
       assert (Hcfg : (TagCollision pubk dh kdf wenc wtag (wc_eph cfg) (wc_key cfg) (wc_recipients cfg) privs) \/
                      exists k n, load_config hp privs = Ok (wc_encrypt cfg, wc_compress cfg, k, n) /\
@@ -461,7 +462,7 @@ Section Roundtrip.
     (wc_encrypt cfg = true ->
        len (wc_key cfg) = 32 /\ len (wc_nonce cfg) = 8 /\
        (forall i c, len (tagf (wc_key cfg) (wc_nonce cfg) i c) = TAG) /\
-       nfull CHUNK (len (mid_of cfg blocks)) + 2 < 2 ^ 32 /\
+       (nfull CHUNK (len (mid_of cfg blocks)) + 2 < 2 ^ 32 /\ CHUNK + TAG <= 2 ^ 31) /\
        dh s (pubk (wc_eph cfg)) = dh (wc_eph cfg) (pubk s) /\
        In (pubk s) (wc_recipients cfg) /\ In s privs) ->
     (* bincode limit on the header, u64 positions in the file *)
@@ -502,7 +503,7 @@ Section Roundtrip.
       rewrite lower_write_ok.
       + reflexivity.
       + intros Ec. destruct (Hc Ec) as (_ & _ & _ & H32 & _). exact H32.
-      + intros Ee. destruct (He Ee) as (_ & _ & _ & Hch & _). exact Hch.
+      + intros Ee. destruct (He Ee) as (_ & _ & _ & Hch & _). exact (proj1 Hch).
     - subst a. exact (read_header_ser LIMIT hp _ Hwf Hlim).
     - (* the configuration the reader loads *)
       assert (Hcfg : (TagCollision pubk dh kdf wenc wtag (wc_eph cfg) (wc_key cfg) (wc_recipients cfg) privs) \/
